@@ -47,6 +47,8 @@ type shape struct {
 	// calls: extra call roles of the workflow; failCalls: sim.Call tags that fail in every execution of the shape
 	calls     []string
 	failCalls []string
+	// hookTerminates: triggered hook tasks run and finish (TASK_FINISHED) instead of sitting there
+	hookTerminates bool
 }
 
 // Non-critical tasks live on hostB alone so that executor/agent loss with a
@@ -73,6 +75,10 @@ var shapes = []shape{
 	// next to a critical controllable task; a hook task is a task of the environment like any other
 	{name: "chh", tasks: []tspec{{crit: true, mode: "direct", host: "hostA"}, {crit: true, mode: "hook", host: "hostA", trigger: "DESTROY"},
 		{crit: false, mode: "hook", host: "hostB", trigger: "DESTROY"}}},
+	// a critical hook task at after_START_ACTIVITY that runs and finishes: by the time the activity runs one
+	// critical role of the tree is DONE - the failure of the other critical task must still reach the environment
+	{name: "chd", tasks: []tspec{{crit: true, mode: "direct", host: "hostA"}, {crit: true, mode: "hook", host: "hostA", trigger: "after_START_ACTIVITY"},
+		{crit: false, mode: "direct", host: "hostB"}}, hookTerminates: true},
 }
 
 // failure kinds (statement: process dies / Mesos reports failed, lost, killed /
@@ -267,6 +273,10 @@ func scenario(s shape, ph phase, group string, q, t vrt.Bounds) *vrt.Scenario {
 		}
 		m := coresim.NewMaster(agents()...)
 		m.LostIsSilent = true
+		m.HookTerminates = s.hookTerminates
+		if s.hookTerminates && s.tasks[r.victim].mode == "hook" {
+			r.kind = kNone // the hook task is gone by the time anything could be injected (hook tasks as victims: shape chh)
+		}
 		w = coresim.NewWorld(m)
 		id, st, err := w.Create(wfName(s), nil)
 		if err != nil || st != "CONFIGURED" {
@@ -321,7 +331,9 @@ func scenario(s shape, ph phase, group string, q, t vrt.Bounds) *vrt.Scenario {
 				victim = m.Tasks[tid]
 			}
 		}
-		if victim == nil || (!victim.Alive && !ph.prefault) {
+		if victim != nil && !victim.Alive && s.hookTerminates && s.tasks[r.victim].mode == "hook" {
+			r.kind = kNone // the hook task has run and finished: fault-free continuation
+		} else if victim == nil || (!victim.Alive && !ph.prefault) {
 			r.setupErr = "victim task not launched"
 			return
 		}
@@ -604,7 +616,7 @@ func main() {
 	coresim.GlobalSetup(specs...)
 	b := func(dev, sec int) vrt.Bounds { return vrt.Bounds{Dev: dev, Seconds: sec} }
 	var scs []*vrt.Scenario
-	newShape := map[string]bool{"gcn": true, "dn": true, "cnk": true, "chh": true}
+	newShape := map[string]bool{"gcn": true, "dn": true, "cnk": true, "chh": true, "chd": true}
 	for _, s := range shapes {
 		for _, ph := range phases {
 			switch {
